@@ -190,6 +190,14 @@ def rules(ctx, tab, tag=""):
                        "every frame that stores Ended must evaluate the timeline on the target at the current position, so "
                        "that the component holds the terminal values when Ended is reported; %s" % detail, site,
                        trace_of(p), what="ended-without-final-update")
+            # R4b: while Playing, every frame evaluates the timeline (the component is never more than a frame old)
+            if r.s0 == "Playing":
+                oku = (len(r.updates) == 1 and r.found == "Ok") or r.found == "Err"
+                ctx.ob("R4" + tag, lab + "/playing-evaluates-every-frame", oku,
+                       "an animator that is Playing at the start of the frame evaluates its timeline on the target in that "
+                       "frame - whatever the frame's delta - so the component is never more than one frame old; "
+                       "%d update(s), target %s" % (len(r.updates), r.found), site, trace_of(p),
+                       what="playing-frame-without-update")
             # updates use the frame's position and the entity's own component
             for u in r.updates:
                 okq = r.get_mut and r.get_mut[0]["descs"][1] == r.entity and u["descs"][2] == r.pos_secs
